@@ -36,7 +36,7 @@ fn gen_wide(r: &mut Rng) -> Ledger {
 
 pub fn run(ctx: &mut Ctx) {
     let prop = "C16";
-    ctx.ev.rule = "wide ledgers (6–13 securities, half of them with tickers that are prefixes of one another, about half fully sold, 2–5 shared disposal dates spread over several tax years, shuffled lines) the standard generated ledgers, and order-sensitive-sum ledgers (one disposal identified with 3–6 later purchases of very different sizes behind a SPLIT whose ratio divides none of them, a second disposal of exactly the rest of the holding): (a) calculate() run 4 times (8 for the sum shape) in-process (each HashMap draws a fresh seed) must give equal reports, and a refused ledger the same refusal text 6 times; tax years ascending, disposals by (date, ticker), holdings by ticker; (a′) the same for the single-year report of each of up to two years with ≥ 2 disposals; (b) the real binary run 3 times as separate processes for `report --format plain`, `report --format json`, `report --year Y --format json` and `parse` must give byte-identical stdout; echoed transactions in the text report by (date, ticker); (d) `report --year` with a ./config.toml that spells one year several ways, 8 separate processes; (c) the Schwab converter: generated exports, and dividends with several withholding rows on the same day and up to three days later, converted 6 times in-process and by 3 separate processes — same text apart from the `# Converted:` line; whole report compared with the Lean model (which has no hash maps; not for the sum shape, whose 28-digit rounding exact rationals do not reproduce). Non-trivial = ledgers with ≥ 6 securities and ≥ 2 fully sold; distinct by ledger text.".into();
+    ctx.ev.rule = "wide ledgers (6–13 securities, half of them with tickers that are prefixes of one another, about half fully sold, 2–5 shared disposal dates spread over several tax years, shuffled lines) the standard generated ledgers, and order-sensitive-sum ledgers (one disposal identified with 3–6 later purchases of very different sizes behind a SPLIT whose ratio divides none of them, a second disposal of exactly the rest of the holding): (a) calculate() run 4 times (8 for the sum shape) in-process (each HashMap draws a fresh seed) must give equal reports, and a refused ledger the same refusal text 6 times; tax years ascending, disposals by (date, ticker), holdings by ticker; (a′) the same for the single-year report of each of up to two years with ≥ 2 disposals; (b) the real binary run 3 times as separate processes for `report --format plain`, `report --format json`, `report --year Y --format json` and `parse` must give byte-identical stdout; echoed transactions in the text report by (date, ticker); (e) reports priced in a currency that its month's rate file lists twice with different rates (bundled XCD 2015-04; a --fx-folder file), 8 processes; (d) `report --year` with a ./config.toml that spells one year several ways, 8 separate processes; (c) the Schwab converter: generated exports, and dividends with several withholding rows on the same day and up to three days later, converted 6 times in-process and by 3 separate processes — same text apart from the `# Converted:` line; whole report compared with the Lean model (which has no hash maps; not for the sum shape, whose 28-digit rounding exact rationals do not reproduce). Non-trivial = ledgers with ≥ 6 securities and ≥ 2 fully sold; distinct by ledger text.".into();
 
     // the exemption configuration: an override file may spell one year in several ways ("2024", "02024",
     // "+2024" all read as the year 2024); whichever entry counts, it must be the same one in every process
@@ -60,6 +60,30 @@ pub fn run(ctx: &mut Ctx) {
                 if a.stdout != b.stdout || a.code != b.code {
                     let ex = |o: &cli::CliOut| serde_json::from_slice::<serde_json::Value>(&o.stdout).ok().map(|v| v["tax_years"][0]["exempt_amount"].to_string()).unwrap_or_else(|| format!("exit {:?}", o.code));
                     ctx.ev.violation("oracle", format!("`cgt-tool {}` with one ./config.toml prints different reports in different processes (exemption {} vs {})", args.join(" "), ex(&a), ex(&b)), format!("# property C16\n# oracle: process non-determinism; ./config.toml is:\n# [exemptions]\n{}# ledger:\n2024-05-01 BUY AAA 10 @ 1\n2024-06-01 SELL AAA 5 @ 2\n", body.lines().map(|l| format!("# {l}\n")).collect::<String>()));
+                    break;
+                }
+            }
+        }
+    }
+    // exchange rates: a month's file may list one currency twice with different rates (the bundled April 2015
+    // file lists XCD at 3.9831 and at 3.983); whichever row counts, it is the same one in every process —
+    // with the bundled rates and with a rates folder of the user's
+    if cli::available() {
+        let sc = cli::Scratch::new();
+        sc.write("xcd.cgt", "2015-04-07 BUY AAA 1000 @ 17.77 XCD FEES 3 XCD\n2015-04-20 SELL AAA 400 @ 31.13 XCD FEES 2.5 XCD\n");
+        std::fs::create_dir_all(sc.path("rates")).expect("mkdir");
+        let row = |code: &str, rate: &str| format!("  <exchangeRate><countryName>X</countryName><countryCode>XX</countryCode><currencyName>Y</currencyName><currencyCode>{code}</currencyCode><rateNew>{rate}</rateNew></exchangeRate>\n");
+        sc.write("rates/2024-03.xml", &format!("<exchangeRateMonthList Period=\"01/Mar/2024 to 31/Mar/2024\">\n{}{}{}{}{}</exchangeRateMonthList>\n", row("USD", "1.2701"), row("EUR", "1.17"), row("USD", "1.2650"), row("USD", "1.2888"), row("USD", "1.2701")));
+        sc.write("usd.cgt", "2024-03-05 BUY AAA 100 @ 20 USD\n2024-03-25 SELL AAA 40 @ 33.33 USD\n");
+        for args in [vec!["report", "xcd.cgt", "--year", "2015", "--format", "json"], vec!["report", "xcd.cgt", "--year", "2015", "--format", "plain"], vec!["report", "usd.cgt", "--fx-folder", "rates", "--format", "json"]] {
+            ctx.ev.evaluations += 1;
+            ctx.ev.count("duplicate-rate-row-cases");
+            let a = cli::run(&sc, &args);
+            for _ in 0..7 {
+                let b = cli::run(&sc, &args);
+                ctx.ev.count("cli-runs");
+                if a.stdout != b.stdout || a.code != b.code {
+                    ctx.ev.violation("oracle", format!("`cgt-tool {}` prints different reports in different processes (a currency listed twice, with different rates, in the month's rate file)", args.join(" ")), format!("# property C16\n# oracle: process non-determinism; run the command below several times{}\n# cgt-tool {}\n{}", if args.contains(&"--fx-folder") { "; rates/2024-03.xml lists USD at 1.2701, 1.2650, 1.2888, 1.2701" } else { " (bundled rates: 2015-04 lists XCD twice)" }, args.join(" "), if args[1] == "xcd.cgt" { "2015-04-07 BUY AAA 1000 @ 17.77 XCD FEES 3 XCD\n2015-04-20 SELL AAA 400 @ 31.13 XCD FEES 2.5 XCD\n" } else { "2024-03-05 BUY AAA 100 @ 20 USD\n2024-03-25 SELL AAA 40 @ 33.33 USD\n" }));
                     break;
                 }
             }
